@@ -102,7 +102,6 @@ func init() {
 		"(*sync.Mutex).Lock":     func(e *Engine, a []Value) Value { e.ls.held[a[0].(*Value)] = "W"; return nil },
 		"(*sync.Mutex).Unlock":   func(e *Engine, a []Value) Value { delete(e.ls.held, a[0].(*Value)); return nil },
 
-		"log.New":               func(e *Engine, a []Value) Value { return (*Value)(nil) },
 		"encoding/gob.Register": mNop,
 		"time.Now": func(e *Engine, a []Value) Value {
 			e.clock++
